@@ -58,6 +58,30 @@ var OA = []int{0, 1, 255, 256, 257, 65535, 65536, 65537, 1<<24 - 1, 1 << 24, 1<<
 // curated offset lists
 var OCurated = [][]int{{}, {0}, {0, 0}, {0, 255}, {0, 256}, {0, 65535, 65536}, {1<<32 - 1}}
 
+// OLong: long offset lists, one set per width of the fixed-width table (largest offset below 2^8, 2^16, 2^24, 2^32)
+// with lengths around powers of two and around 512/width (170, 171, 172 entries of width 3 fill 510, 513, 516 bytes).
+var OLong = func() [][]int {
+	var out [][]int
+	for _, max := range []int{200, 60000, 1 << 20, 1<<32 - 1} {
+		for _, n := range []int{127, 128, 129, 170, 171, 172, 255, 256, 257, 511, 512, 513, 1025} {
+			l := make([]int, n)
+			step := max / n
+			if step == 0 {
+				step = 1
+			}
+			for i := range l {
+				l[i] = i * step
+				if l[i] > max {
+					l[i] = max
+				}
+			}
+			l[n-1] = max
+			out = append(out, l)
+		}
+	}
+	return out
+}()
+
 // KA is the bitmap key alphabet.
 var KA = []uint32{0, 1, 2, 65535, 65536, 65537, 1 << 31, 1<<32 - 2, 1<<32 - 1}
 
